@@ -40,32 +40,47 @@ class Model:
     pass
 
 
-_TASK_CLS = None
+_HASH_INSTALLED = False
+
+
+def _stable_hash(self):
+    h = getattr(self, "_hprio", None)
+    if h is not None:
+        return h
+    ident = str(self.ID)
+    digits = "".join(ch for ch in ident if ch.isdigit())
+    if digits and len(ident) <= 4:
+        return int(digits)
+    import zlib
+
+    return zlib.crc32(ident.encode()) & 0xFFFF
+
+
+def install_hashes():
+    """Give task and component objects a harness-controlled hash (no change to pDESy's source).
+
+    pDESy iterates over `set`s of task / component objects; with the default address-based hash the visiting order
+    changes with every rebuild of the model.  The harness fixes the hash (task/component index, or a value chosen by
+    C09's order obligations through `_hprio`): real CPython sets of small distinct ints iterate in ascending order, so
+    symbolic re-executions, replays and objects re-created by read_simple_json all see the same, chosen order.  This
+    is exactly the degree of freedom that object addresses give, made explicit.
+    """
+    global _HASH_INSTALLED
+    if _HASH_INSTALLED:
+        return
+    from pDESy.model.base_task import BaseTask
+    from pDESy.model.base_component import BaseComponent
+
+    BaseTask.__hash__ = _stable_hash
+    BaseComponent.__hash__ = _stable_hash
+    _HASH_INSTALLED = True
 
 
 def task_class():
-    """BaseTask subclass whose hash is the task index.
+    from pDESy.model.base_task import BaseTask
 
-    Real CPython sets of such objects iterate in index order (small ints, no collisions), which is the order
-    of CrossHair's insertion-ordered set model for pDESy's `set(filter(..., task_list))` idiom.  Replays and
-    symbolic runs therefore agree, and the address-dependent order of plain objects (C09) is under harness control.
-    The class keeps the name 'BaseTask' so that JSON export/read treat it as the base class.
-    """
-    global _TASK_CLS
-    if _TASK_CLS is None:
-        from pDESy.model.base_task import BaseTask as _BT
-
-        class BaseTask(_BT):  # noqa: N801
-            _hprio = 0
-
-            def __hash__(self):
-                return self._hprio
-
-            def __eq__(self, other):
-                return self is other
-
-        _TASK_CLS = BaseTask
-    return _TASK_CLS
+    install_hashes()
+    return BaseTask
 
 
 def build(spec, p, symbolic, hprio=None):
@@ -92,6 +107,7 @@ def build(spec, p, symbolic, hprio=None):
     M.comps = []
     for ci, cs in enumerate(spec.get("comps", [])):
         M.comps.append(BaseComponent("c%d" % ci, ID="c%d" % ci, space_size=val(cs.get("size", 1), p)))
+        M.comps[-1]._hprio = ci
     for ci, cs in enumerate(spec.get("comps", [])):
         for ch in cs.get("children", []):
             M.comps[ci].append_child_component(M.comps[ch])
